@@ -88,6 +88,27 @@ var sigTable = map[int]os.Signal{
 	13: syscall.SIGPIPE, 15: syscall.SIGTERM, 17: syscall.SIGCHLD, 28: syscall.SIGWINCH,
 }
 
+// namedSig is an os.Signal that is not a syscall.Signal; it prints like a
+// shutdown signal does.
+type namedSig string
+
+func (s namedSig) Signal()        {}
+func (s namedSig) String() string { return string(s) }
+
+// sigOf maps the signal numbers of a case to signals: the classic ones by
+// table, numbers from 1000 to named non-syscall signals, everything else to
+// the syscall.Signal of that number (real-time signals, numbers that equal a
+// shutdown signal modulo 32, 64, 128 or 256).
+func sigOf(n int) os.Signal {
+	if s, ok := sigTable[n]; ok {
+		return s
+	}
+	if n >= 1000 {
+		return namedSig([]string{"interrupt", "terminated", "quit"}[n%3])
+	}
+	return syscall.Signal(n)
+}
+
 type notifier struct {
 	mu    sync.Mutex
 	c     chan<- os.Signal
@@ -315,17 +336,17 @@ func checkSignal(c SignalCase) error {
 			return
 		}
 		for i, s := range c.Pre {
-			ch <- sigTable[s]
+			ch <- sigOf(s)
 			synctest.Wait()
 			mu.Lock()
 			nc := len(calls)
 			mu.Unlock()
 			if nc != 0 || len(done) != 0 {
-				v.fail("after non-shutdown signal #%d (%v): %d Shutdown calls, Handle returned: %v", i, sigTable[s], nc, len(done) != 0)
+				v.fail("after non-shutdown signal #%d (%v): %d Shutdown calls, Handle returned: %v", i, sigOf(s), nc, len(done) != 0)
 				return
 			}
 		}
-		ch <- sigTable[c.Shut]
+		ch <- sigOf(c.Shut)
 		synctest.Wait()
 		if len(done) != 1 {
 			// Services of kind 3/4 wait for the shutdown timeout (virtual time).
@@ -333,13 +354,13 @@ func checkSignal(c SignalCase) error {
 			synctest.Wait()
 		}
 		if len(done) != 1 {
-			v.fail("Handle did not return after %v", sigTable[c.Shut])
+			v.fail("Handle did not return after %v", sigOf(c.Shut))
 			return
 		}
 		status := <-done
 		for _, s := range c.Post {
 			select {
-			case ch <- sigTable[s]:
+			case ch <- sigOf(s):
 			default:
 			}
 			synctest.Wait()
@@ -400,7 +421,7 @@ var signalProp = vp.Register(vp.Prop[SignalCase]{
 			SvcTypes:        rapid.SliceOfN(rapid.SampledFrom([]int{0, 0, 0, 1, 2, 3}), 0, 4).Draw(t, "svctypes"),
 			CancelledParent: rapid.IntRange(0, 5).Draw(t, "cancelled") == 0,
 			NotifierEdits:   rapid.SampledFrom([]int{0, 0, 0, 1, 2, 3}).Draw(t, "edits"),
-			Pre:             rapid.SliceOfN(rapid.SampledFrom([]int{1, 10, 12, 13, 17, 28}), 0, 6).Draw(t, "pre"),
+			Pre:             rapid.SliceOfN(rapid.OneOf(rapid.SampledFrom([]int{1, 10, 12, 13, 17, 28}), rapid.SampledFrom([]int{0, 32, 33, 34, 35, 47, 64, 66, 67, 79, 130, 131, 143, 258, 259, 271, 1000, 1001, 1002}), rapid.IntRange(16, 64)), 0, 6).Draw(t, "pre"),
 			Shut:            rapid.SampledFrom([]int{2, 3, 15}).Draw(t, "shut"),
 			Post:            rapid.SliceOfN(rapid.SampledFrom([]int{1, 2, 15, 10}), 0, 3).Draw(t, "post"),
 		}
